@@ -8,5 +8,6 @@ git -C /repo apply $wt/seed_out/patch.diff || exit 2
 (cd $wt/seed_out && sh demo/run.sh /repo/_build > /verif/.work/demo-$p-patched.log 2>&1; echo "demo patched: $?")
 for t in $tiers; do /verif/bin/verif check $p --tier $t > /verif/.work/seedtest-$p-$t.log 2>&1; echo "$t check rc=$? viol=$(grep -c '^VIOLATION' /verif/.work/seedtest-$p-$t.log)"; done
 git -C /repo checkout -- .
+/verif/bin/verif build plain >/dev/null 2>&1
 (cd /repo/_build && cmake --build . >/dev/null 2>&1)
 (cd $wt/seed_out && sh demo/run.sh /repo/_build > /verif/.work/demo-$p-clean.log 2>&1; echo "demo unchanged: $?")
